@@ -28,5 +28,7 @@ missing = sorted(stable - passed)
 print(f"baseline: stable={len(stable)} passed_now={len(passed)} failed_now={len(failed)} stable_missing={len(missing)}")
 for m in missing[:40]:
     print("  MISSING", m)
+for f in sorted(failed)[:20]:
+    print("  FAILED" + (" (not in the stable set)" if f not in stable else ""), f)
 sys.exit(1 if missing else 0)
 PY
